@@ -2,8 +2,10 @@ package rules
 
 import (
 	"go/ast"
+	"go/token"
 	"go/types"
 
+	"verif/checker/internal/pathsim"
 	"verif/checker/internal/prog"
 )
 
@@ -27,7 +29,14 @@ func init() {
 			// answer (the asker keeps the file) and is not judged.
 			answers := func(fi *prog.FuncInfo, what string, from func(info *types.Info, e ast.Expr) bool) {
 				info := fi.Pkg.TypesInfo
-				nres := fi.Obj.Type().(*types.Signature).Results().Len()
+				sig := fi.Obj.Type().(*types.Signature)
+				nres := sig.Results().Len()
+				// named results: what a bare return (or `return needed, err`) hands back is what was last
+				// assigned on the path
+				var boolRes types.Object
+				if rl := fi.Decl.Type.Results; rl != nil && len(rl.List) > 0 && len(rl.List[0].Names) > 0 {
+					boolRes = info.Defs[rl.List[0].Names[0]]
+				}
 				var ok func(e ast.Expr) bool
 				ok = func(e ast.Expr) bool {
 					e = ast.Unparen(e)
@@ -37,7 +46,7 @@ func init() {
 					if from(info, e) {
 						return true
 					}
-					if b, isBin := e.(*ast.BinaryExpr); isBin && b.Op.String() == "||" {
+					if b, isBin := e.(*ast.BinaryExpr); isBin && b.Op == token.LOR {
 						return ok(b.X) || ok(b.Y)
 					}
 					if d := ast.Unparen(deref(info, e)); d != e {
@@ -45,33 +54,81 @@ func init() {
 					}
 					return false
 				}
+				const (
+					resUnset = 0 // the named result still holds false
+					resOK    = 1 // it holds the next link's answer
+					resOwn   = 2 // it holds something else
+				)
 				n := 0
-				var walk func(nd ast.Node) bool
-				walk = func(nd ast.Node) bool {
-					if _, isLit := nd.(*ast.FuncLit); isLit {
-						return false
-					}
-					ret, isRet := nd.(*ast.ReturnStmt)
-					if !isRet {
-						return true
-					}
-					n++
-					r.Site(ret.Pos(), what+" return")
-					if len(ret.Results) != nres {
-						r.Fail(fi.Name()+":answer-shape", ret.Pos(), nil, "%s: a return that does not spell out its results cannot be judged", what)
-						return true
-					}
-					if nres == 2 {
-						if tv, has := info.Types[ret.Results[1]]; !has || !tv.IsNil() {
-							return true // an error answer: the asker keeps the file
+				spec := &pathsim.Spec{}
+				// atom 0: "the error this function is about to return is non-nil" (any error variable)
+				spec.Atom = func(c *pathsim.Ctx, e ast.Expr) (int, bool, bool) {
+					if x, notNil, isCmp := pathsimIsNil(c.Info, e); isCmp {
+						if tv, has := c.Info.Types[x]; has && isErrorType(tv.Type) {
+							return 0, !notNil, true
 						}
 					}
-					if !ok(ret.Results[0]) {
-						r.Fail(fi.Name()+":false-without-asking", ret.Pos(), nil, "%s answers on its own account instead of relaying the next link's answer: a plain 'not needed' reaches the asking cleanup, which deletes a table file although a retained checkpoint of this operator may reference it", what)
-					}
-					return true
+					return 0, false, false
 				}
-				ast.Inspect(fi.Decl.Body, walk)
+				spec.Step = func(c *pathsim.Ctx, s pathsim.State, ev *pathsim.Event) []pathsim.State {
+					switch ev.Kind {
+					case pathsim.EvAssign:
+						for i, l := range ev.Lhs {
+							if tv, has := c.Info.Types[l]; has && isErrorType(tv.Type) {
+								s.V[0] = pathsim.Unknown
+							} else if id, isID := ast.Unparen(l).(*ast.Ident); isID {
+								if o := c.Info.Defs[id]; o != nil && isErrorType(o.Type()) {
+									s.V[0] = pathsim.Unknown
+								}
+							}
+							if boolRes != nil && prog.IdentObjPlain(c.Info, l) == boolRes {
+								s.A = resOwn
+								if len(ev.Rhs) == len(ev.Lhs) && ok(ev.Rhs[i]) {
+									s.A = resOK
+								}
+							}
+						}
+						return []pathsim.State{s}
+					case pathsim.EvReturn:
+						if c.Depth > 0 {
+							return nil
+						}
+						n++
+						var res0 ast.Expr
+						switch {
+						case len(ev.Results) == nres:
+							res0 = ev.Results[0]
+							if nres == 2 {
+								tv, has := c.Info.Types[ev.Results[1]]
+								if !(has && tv.IsNil()) && s.V[0] != pathsim.False {
+									return nil // an error answer (or possibly one): the asker keeps the file
+								}
+							}
+						case len(ev.Results) == 0 && boolRes != nil:
+							if nres == 2 && s.V[0] == pathsim.True {
+								return nil
+							}
+						default:
+							c.Violate(ev.Pos, "[answer-shape] %s: a return whose results cannot be told", what)
+							return nil
+						}
+						good := false
+						switch {
+						case res0 == nil:
+							good = s.A == resOK
+						case boolRes != nil && prog.IdentObjPlain(c.Info, res0) == boolRes:
+							good = s.A == resOK
+						default:
+							good = ok(res0)
+						}
+						if !good {
+							c.Violate(ev.Pos, "[false-without-asking] %s answers on its own account instead of relaying the next link's answer: a plain 'not needed' reaches the asking cleanup, which deletes a table file although a retained checkpoint of this operator may reference it", what)
+						}
+					}
+					return nil
+				}
+				r.Sim(fi.Decl, fi.Name()+":relay", spec)
+				r.Site(fi.Decl.Pos(), what+" relays the next link's answer")
 				if n == 0 {
 					r.Fail(fi.Name()+":answer-shape", fi.Decl.Pos(), nil, "%s has no return", what)
 				}
@@ -105,6 +162,25 @@ func init() {
 							val = kv.Value
 						}
 					}
+				}
+				if val == nil {
+					// the field may be assigned after the literal: msg.TableNeeded = <answer>
+					inspect(connH.Decl.Body, func(m ast.Node) bool {
+						as, isAs := m.(*ast.AssignStmt)
+						if !isAs || len(as.Lhs) != 1 || len(as.Rhs) != 1 {
+							return true
+						}
+						sel, isSel := ast.Unparen(as.Lhs[0]).(*ast.SelectorExpr)
+						if !isSel || sel.Sel.Name != "TableNeeded" {
+							return true
+						}
+						if n, isNamed := derefType(hi.TypeOf(sel.X)).(*types.Named); isNamed && n.Obj().Name() == "NeedsTableResponse" {
+							if val == nil || !callOf(handle.Obj)(hi, val) {
+								val = as.Rhs[0]
+							}
+						}
+						return true
+					})
 				}
 				if val == nil || !callOf(handle.Obj)(hi, val) {
 					r.Fail(connH.Name()+":false-without-asking", cl.Pos(), nil, "the NeedsTable response does not carry Operator.HandleNeedsTable's answer in TableNeeded (an unset field reads as 'not needed')")
